@@ -137,7 +137,7 @@ async def drive_h11(cfg: dict, ops) -> Tuple[List[dict], List[dict], dict]:
             return app_put
 
         def spawn(self, func, *args):
-            sink.append(["spawnPings"])
+            sink.append(["spawnClose"] if any(type(a).__name__ == "StreamClosed" for a in args) else ["spawnPings"])
 
     async def send(ev):
         if isinstance(ev, RawData):
